@@ -1,4 +1,5 @@
 P = dict(
+    proofs=["Proof_C07"],
     features={"quick": [None, "fixed_point"], "thorough": [None, "fixed_point"]},
     bin="egv_c07", trace="Trace_C07", level="model_checking",
     mc=[dict(module="MC_C07", quick_cfg="MC_C07.cfg", thorough_cfg="MC_C07_thorough.cfg", workers=8),
